@@ -1019,6 +1019,51 @@ impl Oracle {
                 }
             }
         }
+        // (c) copies that list some of their (really won) indexes twice, delivered before everything
+        // else: every listed index is a win, the copies verify, nothing else changes
+        {
+            let mut with_repeats: Vec<Item> = vec![];
+            for item in log.iter().filter(|i| i.valid.as_ref().is_some_and(|v| !v.is_empty())).take(4) {
+                let won = item.sig.signature.get_concatenation_signature_indices();
+                let mut listed: Vec<u64> = vec![];
+                for (j, i) in won.iter().enumerate() {
+                    listed.push(*i);
+                    if j == 0 || r.chance(0.5) {
+                        listed.push(*i);
+                    }
+                }
+                if let Some(mut it) = reencode(item, &listed) {
+                    let hex = it.sig.signature.to_json_hex().unwrap_or_default();
+                    if Self::verify_under_key(&pp, &signers, &it.sig.party_id, &hex, &[], &message).is_err() {
+                        // the library refuses repeated indexes: such a copy is plain invalid material
+                        self.probe("clerk_probe_repeated_index_copy_does_not_verify");
+                        it.valid = None;
+                    }
+                    it.what = format!("{}~repeated-indexes", item.what);
+                    with_repeats.push(it);
+                }
+            }
+            if !with_repeats.is_empty() {
+                for item in log.iter() {
+                    with_repeats.push(Item { sig: item.sig.clone(), valid: item.valid.clone(), what: item.what.clone() });
+                }
+                let items: Vec<&Item> = with_repeats.iter().collect();
+                let res = aggregate(&items);
+                self.probe("clerk_probe_repeated_index_copies");
+                let describe = items.iter().take(6).map(|i| format!("{}{:?}", i.what, i.sig.won_indexes)).collect::<Vec<_>>().join(" ");
+                match res {
+                    Ok(true) => {}
+                    Ok(false) => self.report(step, "aggregate-does-not-verify", format!("aggregation for {} with copies listing indexes twice succeeded but its result does not verify [{describe} ...]", entity.label())),
+                    Err(e) => {
+                        if full_union.len() as u64 >= pp.k {
+                            self.report(step, "quorum-but-aggregation-fails", format!(
+                                "the delivered signatures for {} cover {} distinct lottery indexes (k = {}); with copies of them that list some indexes twice delivered first, aggregation fails: {e} [{describe} ...]",
+                                entity.label(), full_union.len(), pp.k));
+                        }
+                    }
+                }
+            }
+        }
         // (b)
         let genuine_ok = aggregate(&full);
         let mut with_bogus: Vec<Item> = log.iter().map(|i| Item { sig: i.sig.clone(), valid: i.valid.clone(), what: i.what.clone() }).collect();
